@@ -41,3 +41,7 @@ Definition chk_conn (adj : list (list Z)) (o : res bool) : nat :=
 (* both observations of one file in one case (the text is shipped once) *)
 Definition chk_topmol (text : string) (ot : res obs_top) (om : res (string * list obs_atom * bool)) : nat :=
   Nat.max (chk_top text ot) (chk_mol text om).
+
+(* C16: ItpFile observation + written text + read_topology on the same text, in one case *)
+Definition chk_itp_top (text : string) (o : res obs_file) (written : string) (ot : res obs_top) : nat :=
+  Nat.max (chk_itp text o written) (chk_top text ot).
